@@ -62,6 +62,7 @@ struct R {
 	6: SM sm,
 	7: map<E,i32> em,
 	8: map<bool,V> bm,
+	9: map<i64,i32> bi,
 	63: W w,
 	64: string y,
 	300: list<list<i32>> ll,
